@@ -18,6 +18,8 @@ LEVEL = 'model_checking'
 TRIGGERS = ['starting_trigger', 'contemplation_trigger', 'running_trigger', 'gitting_trigger',
             'archiving_trigger', 'update_trigger', 'loading_trigger', 'updating_trigger']
 PRIOS = ('now', 'todo_empty', 'garbage')
+# triggers whose before-callback sets transitioning (start, save_prior_state, reset)
+GUARDED = ('starting_trigger', 'archiving_trigger', 'loading_trigger')
 
 
 class Driver:
@@ -176,20 +178,38 @@ def probe_illegal(dr, report):
     f = w.fsm
     for trig in TRIGGERS:
         if any(src == f.state for src, _d in w.dot.get(trig, ())):
+            # allowed by the diagram from this state.  While a background step
+            # is outstanding (transitioning != active) the triggers whose
+            # 'before' callback takes the entering/exiting guard must still be
+            # refused without side effects.
+            if f.transitioning.name == 'active' or trig not in GUARDED:
+                continue
+            before = dr.canon()
+            moves0 = list(dr.moves)
+            try:
+                getattr(f, trig)()
+                report(f'C10/trigger-accepted-during-transition/{trig}/in-{before[0][0]}-{before[0][1]}',
+                       f'{trig} accepted in state {before[0][0]} while {before[0][1]}')
+            except Exception:  # noqa  (MachineError; today a TypeError from the message formatting)
+                pass
+            if dr.canon() != before or dr.moves != moves0:
+                report(f'C10/trigger-during-transition-has-side-effects/{trig}/in-{before[0][0]}',
+                       f'{trig} in {before[0][0]} while {before[0][1]} changed the state: {before} -> {dr.canon()}')
+                return False
             continue
         before = dr.canon()
         moves0 = list(dr.moves)
         try:
             getattr(f, trig)()
-            report(f'C10/illegal-trigger-accepted/{trig}/from-{before[0][0][0]}',
-                   f'{trig} in state {before[0][0][0]} did not raise')
+            report(f'C10/illegal-trigger-accepted/{trig}/from-{before[0][0]}',
+                   f'{trig} in state {before[0][0]} did not raise')
         except transitions.MachineError:
             pass
         except Exception as e:  # noqa
             report(f'C10/illegal-trigger-raises-{type(e).__name__}/{trig}', f'{trig}: {e!r}')
         if dr.canon() != before or dr.moves != moves0:
-            report(f'C10/illegal-trigger-has-side-effects/{trig}/from-{before[0][0][0]}',
-                   f'{trig} rejected in {before[0][0][0]} but the state changed: {before} -> {dr.canon()}')
+            report(f'C10/illegal-trigger-has-side-effects/{trig}/from-{before[0][0]}',
+                   f'{trig} rejected in {before[0][0]} but the state changed: {before} -> {dr.canon()}')
             return False
     return True
 
